@@ -1,5 +1,5 @@
 (* Dispatch.v — one entry point for the OCaml driver: property number -> functions. *)
-From Molt Require Import Model.Base Model.Tokenizer Check.C05 Check.C02 Check.C01 Check.C03 Check.C09 Check.C11 Check.C17 Check.C08 Check.C16 Check.C15 Check.C18 Check.C19 Check.C10 Check.C12 Check.C07 Check.C04 Check.C20 Check.C06 Check.C14.
+From Molt Require Import Model.Base Model.Tokenizer Check.C05 Check.C02 Check.C01 Check.C03 Check.C09 Check.C11 Check.C17 Check.C08 Check.C16 Check.C15 Check.C18 Check.C19 Check.C10 Check.C12 Check.C07 Check.C04 Check.C20 Check.C06 Check.C14 Check.C13.
 
 Record prop_fns := {
   pf_model_obs : term -> term;
@@ -31,6 +31,8 @@ Definition dispatch (p : N) : prop_fns :=
               pf_known := c08_known; pf_nontrivial := c08_nontrivial |}
   | 12%N => {| pf_model_obs := c12_model_obs; pf_spec_ok := c12_spec_ok;
                pf_known := c12_known; pf_nontrivial := c12_nontrivial |}
+  | 13%N => {| pf_model_obs := c13_model_obs; pf_spec_ok := c13_spec_ok;
+               pf_known := c13_known; pf_nontrivial := c13_nontrivial |}
   | 14%N => {| pf_model_obs := c14_model_obs; pf_spec_ok := c14_spec_ok;
                pf_known := c14_known; pf_nontrivial := c14_nontrivial |}
   | 15%N => {| pf_model_obs := c15_model_obs; pf_spec_ok := c15_spec_ok;
